@@ -59,7 +59,7 @@ ASSUMPTIONS = [
 PROBES = ["mixed_cell_shapes_2d", "two_subdomains_same_dim_different_mix", "polyhedral_3d", "interface_data", "vector_data", "ge_11_exports", "non_integer_times",
           "times_closer_than_1e-6", "crash_in_times_json", "crash_in_vtu", "crash_in_step_pvd", "crash_in_collecting_pvd", "crash_between_exports", "torn_file",
           "restart_route_pvd", "restart_route_mdg_pvd", "restart_route_vtu", "second_restart", "third_restart", "restart_raised_after_midexport_crash",
-          "continue_after_restart", "crash_during_restart_before_any_output", "data_tuples_not_in_mdg_order", "constants_exported_separately", "readonly_import_of_older_step", "zero_d_subdomain", "export_after_vtu_route_restart_raises"]
+          "continue_after_restart", "crash_during_restart_before_any_output", "data_tuples_not_in_mdg_order", "constants_exported_separately", "stale_output_of_previous_run_in_folder", "readonly_import_of_older_step", "zero_d_subdomain", "export_after_vtu_route_restart_raises"]
 
 KEYS_SD = ["p"]
 
@@ -262,6 +262,7 @@ def run_exporter(ch, tr: Trace) -> None:
         torn = ch.flag(1, 2)
         many = ch.flag(1, 6)
         world["constants_separately"] = ch.flag(1, 3)  # exporter option: constant data in files of their own
+        stale_prev = ch.flag(1, 4)  # the output folder still holds the files of an earlier, finished run
     if world["constants_separately"]:
         tr.probe("constants_exported_separately")
     tr.emit("config", [(g.dim, d) for g, d in world["subs"]], len(world["intfs"]), world["keys_sd"], time_family, max_cycles, crash_midexport)
@@ -324,12 +325,16 @@ def run_exporter(ch, tr: Trace) -> None:
                 # Seen on the pinned tree and outside the statement of C38 (which constrains imports, not the export that
                 # follows one): after a restart through explicit vtu files the exporter has no _restart_files and the first
                 # export into the same folder raises.  Recorded as a probe; the run ends here without a verdict.
-                if "_restart_files" in str(e):
+                if "_restart_files" in str(e) and sess.get("route") == "vtu":
                     durable[k] = prev if prev is not None else durable.pop(k) and None
                     if durable.get(k) is None:
                         durable.pop(k, None)
                     raise EndOfRun("export_after_vtu_route_restart_raises")
+                raise Violation("export_of_valid_data_completes", f"export of step {k} raised {e!r}", "export_raised")
+            except (Violation, EndOfRun):
                 raise
+            except Exception as e:  # noqa: BLE001  nothing can be restored from an export that does not complete
+                raise Violation("export_of_valid_data_completes", f"export of step {k} raised {e!r}", "export_raised")
             rec["complete"] = True
             written_this_session.append(k)
             durable_inprogress[0] = None
@@ -368,6 +373,7 @@ def run_exporter(ch, tr: Trace) -> None:
             else:
                 ro = {"restart": True, "pvd_file": None, "vtu_files": None, "time_index": k_target, "times_file": times_file}
             s = new_session(ro)
+            s["route"] = route
             if route == "vtu":
                 ro["vtu_files"] = [rf / p.name for p in vtu_files_of(k_target)]
             tr.probe("restart_route_" + route)
@@ -396,6 +402,24 @@ def run_exporter(ch, tr: Trace) -> None:
         n_exports_total = [0]
 
         def _history():
+            if stale_prev:
+                # An earlier run (same configuration, other data, usually more steps) finished normally and left its
+                # files in the output folder; the run studied here starts from scratch in the same folder.  Nothing of
+                # the earlier run is durable for the oracle: a later restart must never hand back one of its values.
+                s0 = sess_box[0]
+                gen[0] += 1
+                write_state(s0["mdg"], world, None, gen[0])
+                do_export(s0, advance=False)
+                for _ in range(ch.rng(1, 6)):
+                    do_export(s0, advance=True)
+                durable.clear()
+                home.clear()
+                written_this_session.clear()
+                durable_inprogress[0] = None
+                last_complete[0] = None
+                sess_box[0] = new_session({"restart": False})
+                tr.probe("stale_output_of_previous_run_in_folder")
+                tr.emit("previous-run-finished")
             sess = sess_box[0]
 
             # initial condition export (as prepare_simulation does)
